@@ -1,5 +1,14 @@
 import Quanto.Wire
+import Quanto.Spec.C01
 open Quanto
+
+/-- scalar-or-per-element lookup -/
+def pick (l : Array FV) (i : Nat) : FV := if l.size = 1 then l[0]! else l[i]!
+
+def firstFails (vs : List String) : String :=
+  let bad := (vs.zipIdx.filter fun p => p.1 ≠ "ok" && p.1 ≠ "same")
+  if bad.isEmpty then "ok" else
+    "fail " ++ " ".intercalate ((bad.take 8).map fun p => s!"{p.2}:{p.1}") ++ s!" n={bad.length}"
 
 def handle (toks : List String) : String :=
   match toks with
@@ -35,7 +44,28 @@ def handle (toks : List String) : String :=
         match qb.dequantize F with
         | .error e => s!"err {e.name}"
         | .ok d =>
-          s!"ok {showAxis qb.axis} {showShape qb.data.shape} {showIntList (qb.data.data.toList.map (showCode Q))} {showShape d.shape} {showFT F d}"
+          -- re-quantization of the dequantized tensor with the same scale (idempotence half of C01)
+          let again := match symQuantize F Q d (parseAxis axis) s with
+            | .error e => s!"err:{e.name}"
+            | .ok q2 => showIntList (q2.data.data.toList.map (showCode Q))
+          s!"ok {showAxis qb.axis} {showShape qb.data.shape} {showIntList (qb.data.data.toList.map (showCode Q))} {showShape d.shape} {showFT F d} {again}"
+  -- spec01 F Q xbits sbits codes ybits   (elementwise; scale list of length 1 or n)
+  | ["spec01", f, q, xb, sb, cb, yb] =>
+      let F := fmtOfName f
+      let Q := qtOfName q
+      let xs := ((parseNatList xb).map F.decode).toArray
+      let ss := ((parseNatList sb).map F.decode).toArray
+      let cs := ((parseIntList cb).map (parseCode Q)).toArray
+      let ys := ((parseNatList yb).map F.decode).toArray
+      let grid := Q.grid
+      firstFails ((List.range xs.size).map fun i => (specC01G F Q grid xs[i]! (pick ss i) cs[i]! ys[i]!).name)
+  | ["idem01", f, q, sb, cb, c2b] =>
+      let F := fmtOfName f
+      let Q := qtOfName q
+      let ss := ((parseNatList sb).map F.decode).toArray
+      let cs := ((parseIntList cb).map (parseCode Q)).toArray
+      let c2 := ((parseIntList c2b).map (parseCode Q)).toArray
+      firstFails ((List.range cs.size).map fun i => (specC01Idem F (pick ss i) cs[i]! c2[i]!).name)
   | _ => "bad-op"
 
 partial def loop (h : IO.FS.Stream) (out : IO.FS.Stream) : IO Unit := do
